@@ -205,7 +205,7 @@ EventViol(e, D2, ta) ==
     THEN IF NodeExists(D, <<e.c[1], e.c[2], e.c[3], <<>>>>)
          THEN CallLabels(Tag, D, NodeOfEv(D, e), e.res, data, dl, e.fx,
                          Opt(Tr.hdr, "maxdepth", 0), ta)
-              \cup (IF "tb" \in DOMAIN e THEN TracebackLabels(Tag, e.res, e.fx, e.tb) ELSE {})
+              \cup (IF "tb" \in DOMAIN e THEN TracebackLabels(Tag, e.res, IF "tbx" \in DOMAIN e THEN e.tbx ELSE ChainOf(e.fx), e.tb) ELSE {})
          ELSE {}
     ELSE IF ~Accepted(e)
     THEN RejectedLabels(Tag, pdefs, e.post.defs, data, dl)
